@@ -96,6 +96,9 @@ theorem step_good {env : Env} (hinj : HashInj env) {st : Store} (hc : Guard env 
       subst hr
       exact hlit hx
     · unfold adel at hp; exact hl p (List.mem_filter.mp hp).1 r hr hx
+  | litterMan p =>
+    simp only [step, targets]
+    exact ⟨hb, fun h n m hm l hl => h n m hm l hl, hc, fun h => h, fun _ _ => rfl, fun _ _ _ _ _ _ _ h => h⟩
   | litterBlob k c =>
     simp only [step, targets]
     have hk : env.hash c = k := hlit
@@ -296,6 +299,7 @@ theorem prune_exact_guarded (env : Env) (st : Store) (hc : Guard env st) (hnc : 
   refine ⟨pruneLayers_junk_nil env (fixBlobs_junk_plain st), fun k => ?_⟩
   have hc' : Guard env (fixBlobs st) := hc.imp id (fun h n m hm => h n m hm)
   have hkr : (fixBlobs st).keyReferenced k = st.keyReferenced k := keyReferenced_congr rfl k
+  show (pruneLayers env (fixBlobs st)).blob k = _
   rw [pruneLayers_blob]
   cases hk : st.keyReferenced k with
   | true => rw [inUse_of_key hc' (d := ⟨.colon, k⟩) (Or.inr rfl) (by rw [← hk]; exact hkr)]
@@ -311,6 +315,22 @@ theorem prune_exact (env : Env) (st : Store) (hc : Canonical st) (hnc : st.hasCo
     (pruneStartup env st).1.junk = [] ∧
     ∀ k, (pruneStartup env st).1.blob k = if st.keyReferenced k then (fixBlobs st).blob k else none :=
   prune_exact_guarded env st (Or.inr hc) hnc
+
+/-- **`PruneDirectory` leaves no empty directory.**  After a completed delete and after a completed start-up prune
+    every directory below manifests/ that is not on the way to a manifest is on the way to a stray regular file
+    or symlink (those are never removed, and a directory that holds one — at any depth — stays); in particular
+    with no stray files the directory tree is exactly the ancestors of the manifests. -/
+theorem prune_no_empty_dir (st : Store) :
+    ∀ d ∈ (pruneDirs st).edirs, ∃ f ∈ st.treeFiles, isAncestor d f = true := by
+  intro d hd
+  have := (List.mem_filter.mp hd).2
+  exact List.any_eq_true.mp this
+
+theorem pruneStartup_no_empty_dir (env : Env) (st : Store) (hnc : st.hasCorrupt = false) :
+    ∀ d ∈ (pruneStartup env st).1.edirs, ∃ f ∈ (pruneStartup env st).1.treeFiles, isAncestor d f = true := by
+  unfold pruneStartup
+  simp only [hnc, Bool.false_eq_true, if_false]
+  exact prune_no_empty_dir (pruneLayers env (fixBlobs st))
 
 /-- when a manifest fails to parse the prune is skipped: only `fixBlobs` runs, every other file stays -/
 theorem prune_skipped (env : Env) (st : Store) (hnc : st.hasCorrupt = true) :
@@ -473,6 +493,7 @@ theorem no_case_twins_partial (env : Env) (hv : env.v.fixResolve = false) (st : 
     | dashify n => exact h.mono (fun a ha => readable_of_rewrite env st ch n a (Or.inr ha))
     | litter j c => exact sub0 rfl
     | litterBlob k c => exact sub0 rfl
+    | litterMan p => exact sub0 rfl
     | pull n reg sv =>
       have : env.v.fixPullName = true := hpn
       exact sub n ch.ord1 hcov.1 (by simp [targets, hres, pullTarget, this])
@@ -552,6 +573,8 @@ theorem no_new_case_twins_fixed (env : Env) (hv : env.v.fixResolve = true) (st :
   | litter j c =>
     exact sub0 (fun x hx => (readable_frame env st _ ch x hx).elim id (fun h => by simp [targets] at h))
   | litterBlob k c =>
+    exact sub0 (fun x hx => (readable_frame env st _ ch x hx).elim id (fun h => by simp [targets] at h))
+  | litterMan p =>
     exact sub0 (fun x hx => (readable_frame env st _ ch x hx).elim id (fun h => by simp [targets] at h))
 
 /-- hence `no_case_twins` itself is an invariant of every API operation, with no spelling guard -/
